@@ -175,7 +175,10 @@ mutual
         else
           match outer.bind omap with
           | some a =>
-            -- the node exists outside: `clear`, register, build the children, `init`
+            -- the node exists outside: `clear`, register, build the children, `init`.  Re-use is decided by PRESENCE of
+            -- the outer index in `outer_index_outer_ref` (`nodedef.outer_index in outer_index_outer_ref`), never by the
+            -- object's value: a caller object that is falsy (empty `__len__` container, `__bool__` False, `nnx.Rngs()`)
+            -- is re-used like any other -- the heap model has no truthiness notion on purpose.
             match H[a]? with
             | some (.node cls0 _) =>
               if cls0 = cls then
@@ -614,17 +617,17 @@ def jitCached (f : Fn) (c : JitCache) (h : Heap) (args : List PVal) : Except Err
 
 /-- `nnx.cached_partial(jit(f), *cached_args)`: the graph nodes of the cached arguments are cloned once (the
 clones hold the SAME Variable objects); every call runs `jit(f)` on the clones and demands that the final
-graphdef of each cached node equals `final_graphdef = graphdef.with_same_outer_index()`.  The model keeps the
-observable part: the call is `jitCall` on the caller's heap where the only writes that reach the caller are
+graphdef of each cached node equals `final_graphdef = graphdef.with_same_outer_index()`.  The first `ncached`
+arguments are the cached ones, the remaining ones are passed at every call.  The model keeps the observable part: the call is `jitCall` on the caller's heap where the only writes that reach the caller are
 Variable updates; a structural change is `cacheMutated`. -/
-def cachedPartialCall (f : Fn) (h : Heap) (args : List PVal) : Except Err (List PVal × Heap) :=
+def cachedPartialCall (f : Fn) (ncached : Nat) (h : Heap) (args : List PVal) : Except Err (List PVal × Heap) :=
   match step1 true h args with
   | .error e => .error e
   | .ok (gds, lss, idx1) =>
     match pureRun true true f [] gds lss with
     | .error e => .error e
     | .ok (gdsO, lssO) =>
-      if gdsO.take args.length = gds.map (stampWith (fun i => some i)) then
+      if gdsO.take ncached = (gds.take ncached).map (stampWith (fun i => some i)) then
         match step4 h idx1 gdsO lssO with
         | .error e => .error e
         | .ok (roots, h4) => .ok (roots.drop args.length, h4)
